@@ -1658,6 +1658,28 @@ def _extract_all(repo, fam):
                 ops = run_config([trc], enums, tstep, m, TI, {"reb_integrator_trace_post_ts_check": rej})
                 D["trace"]["steps"].append({"peri_mode": pm, "current_C": cc, "rejected_once": rej,
                                             "step": abstract_trace(ops, D["trace"]["jump_noop"][cc])})
+    # ---- the dispatchers of integrator.c: which family routine does each REB_INTEGRATOR_* value reach?
+    fam[0] = "dispatch"
+    igr = CFile(os.path.join(S, "integrator.c"))
+    integs = sorted(((k, v) for k, v in enums.items() if k.startswith("REB_INTEGRATOR_")), key=lambda kv: kv[1])
+    D["dispatch"] = []
+    for ename, ev in integs:
+        row = {"enum": ename, "value": ev, "family": ename[len("REB_INTEGRATOR_"):].lower()}
+        for phase, fn in (("part1", "reb_integrator_part1"), ("part2", "reb_integrator_part2"), ("synchronize", "reb_simulation_synchronize")):
+            it = Interp([igr], {"r.integrator": ev, "r.ri_bs.nbody_ode": 0, "r.N_odes": 0, "r.dt": Fraction(1), "r.t": Fraction(0)}, set())
+            it.enums = enums
+            it.run(fn, [Path("r")])
+            calls = [o[0] for o in it.ops]
+            if ename == "REB_INTEGRATOR_NONE" and phase == "part2" and not calls and it.mem.get("r.t") == 1 and it.mem.get("r.dt_last_done") == 1:
+                calls = ["advance_time"]
+            if len(calls) > 1:
+                raise ExtractError("%s(%s) calls more than one routine: %s" % (fn, ename, calls))
+            row[phase] = calls[0] if calls else ""
+        D["dispatch"].append(row)
+    it = Interp([igr], {}, set())
+    it.enums = enums
+    it.run("reb_simulation_reset_integrator", [Path("r")])
+    D["dispatch_reset"] = {"calls": [o[0] for o in it.ops], "integrator_after": it.mem.get("r.integrator")}
     # ---- BS: substep sequence, extrapolation abscissae, and the linear map of `extrapolate`
     fam[0] = "bs"
     bs = CFile(os.path.join(S, "integrator_bs.c"))
@@ -1914,6 +1936,17 @@ def emit_lean(D):
         "((%d, %d, %d), traceStep_%d_%d_%d)" % ((e["peri_mode"], e["current_C"], e["rejected_once"]) * 2) for e in TR["steps"]) + "]\n"
     s += "end RV.C01.Gen\n"
     out["C01Trace.lean"] = s
+
+    # ---------------- dispatchers
+    s = HEADER % "src/integrator.c (reb_integrator_part1, reb_integrator_part2, reb_simulation_synchronize, reb_simulation_reset_integrator), src/rebound.h"
+    s += "/-- (enumerator, value, lower-case family name, routine reached by part1, by part2, by synchronize); \"\" = nothing is called,\n"
+    s += "    \"advance_time\" = only r->t += r->dt -/\n"
+    s += "def dispatch : List (String × Nat × String × String × String × String) := [\n  " + ",\n  ".join(
+        '("%s", %d, "%s", "%s", "%s", "%s")' % (r_["enum"], r_["value"], r_["family"], r_["part1"], r_["part2"], r_["synchronize"]) for r_ in D["dispatch"]) + "]\n"
+    s += "def dispatchResetCalls : List String := [" + ", ".join('"%s"' % x for x in D["dispatch_reset"]["calls"]) + "]\n"
+    s += "def dispatchResetIntegrator : Nat := %d\n" % D["dispatch_reset"]["integrator_after"]
+    s += "end RV.C01.Gen\n"
+    out["C01Dispatch.lean"] = s
 
     # ---------------- BS
     s = HEADER % "src/integrator_bs.c (allocate_sequence_arrays, extrapolate)"
